@@ -44,6 +44,26 @@ def rand_fst(rng, q, ins, outs, m, p_eps_in=0.3, p_eps_out=0.3, min_arcs=1):
     return mk(states, start, stop, arcs, rng)
 
 
+def rich_fst(rng, q, ins, outs, p_arc=0.7, p_out_eps=0.3, n_in_eps=1, p_epseps=0.3):
+    """Permissive random machine: from every state most input symbols can be read (so that most input strings have a
+    path), plus up to n_in_eps eps-input arcs and possibly an eps:eps arc; cycles of every kind arise freely."""
+    states = list(range(q))
+    arcs = []
+    for i in states:
+        for a in ins:
+            if rng.random() < p_arc:
+                arcs.append((i, (a, EPS if rng.random() < p_out_eps else rng.choice(outs)), rng.choice(states)))
+    for _ in range(rng.randint(0, n_in_eps)):
+        arcs.append((rng.choice(states), (EPS, rng.choice(outs)), rng.choice(states)))
+    if rng.random() < p_epseps:
+        arcs.append((rng.choice(states), (EPS, EPS), rng.choice(states)))
+    if not arcs:
+        arcs.append((0, (ins[0], outs[0]), 0))
+    start = rng.sample(states, rng.randint(1, min(2, q)))
+    stop = rng.sample(states, rng.randint(1, min(2, q)))
+    return mk(states, start, stop, arcs, rng)
+
+
 def rand_wfsa(rng, q, syms, m, p_eps=0.25):
     states = list(range(q))
     arcs = []
